@@ -75,13 +75,16 @@ def float_close(a: float, b: float, ulps=4) -> bool:
     return abs(a - b) <= ulps * max(math.ulp(a), math.ulp(b))
 
 
-def same_value(want, got, tolerant=False) -> bool:
+def same_value(want, got, tolerant=False, scale=0.0) -> bool:
     kw, kg = kind_of(want), kind_of(got)
     if kw != kg:
         return False
     if kw == "float":
         if tolerant:
-            return float_close(want, got)
+            if float_close(want, got):
+                return True
+            return (not math.isnan(want) and not math.isnan(got) and not math.isinf(want) and not math.isinf(got)
+                    and abs(want - got) <= 16 * 2.0 ** -52 * scale)
         if math.isnan(want) or math.isnan(got):
             return math.isnan(want) and math.isnan(got)
         return want == got and math.copysign(1, want) == math.copysign(1, got)
@@ -102,7 +105,7 @@ def compare_items(want_items, got_items, upto=None) -> str | None:
         name, k, v, rk, rv = got_items[i]
         if name != w.name:
             return f"item #{i} is {name}, expected {w.name}"
-        if not same_value(w.value, v, tolerant=w.calibrated):
+        if not same_value(w.value, v, tolerant=w.calibrated, scale=w.scale):
             return f"{name}: value {v!r} ({k}) != expected {w.value!r} ({kind_of(w.value)})"
         if not same_value(w.raw, rv):
             return f"{name}: raw_value {rv!r} ({rk}) != expected {w.raw!r} ({kind_of(w.raw)})"
